@@ -120,6 +120,10 @@ def case_lit(d, S, out, zeros):
 
 def run(ctx):
     ctx.prove(props=["C03", "C03_forms"])
+    # models regenerated from the source: get_qubo (C02_gen, incl. C02_gen_feasibility_value_Z = C03 for the generated term)
+    # and the sufficient penalties (C04_gen: 0 in feasibility mode)
+    from props import genreg
+    genreg.steps(ctx, ("getqubo", "suffpen"))
     rng = ctx.rng
     count = 300 if ctx.quick else 6000
     max_n = 14 if ctx.quick else 18
